@@ -33,7 +33,9 @@ def from_program(prog, unnamed_switch=False, generic=()):
                       'generic': n['id'] in generic and not n.get('derives'), 'derives': n.get('derives'),
                       'plainbase': bool(n.get('plainbase')),
                       # every other generic base documents its run method: the node made by build_node inherits it
-                      'gdoc': zlib.crc32(n['id'].encode()) % 2 == 0})
+                      'gdoc': zlib.crc32(n['id'].encode()) % 2 == 0,
+                      # every third one is derived twice (build_node of a build_node result)
+                      'gtwice': zlib.crc32(n['id'].encode()) % 3 == 0})
     byid = {x['id']: x for x in decls}
     for x in decls:
         # a subclass shows the documentation of the run method it inherits: the root ancestor's, or - when that one
@@ -199,13 +201,25 @@ def emit(d):
             gparams = ['self'] + ['%s: GenericInput(t.Type[ProcessorBase])' % m['kw'] for m in x['marks']]
             if defect == 'generic_partial':
                 gparams.append('left_generic: InputGeneric(t.Type[ProcessorBase])')
+            # one more generic input, bound to a constant through dependencies_default (build_node accepts that)
+            gparams.append('gconst: InputGeneric(t.Type[ProcessorBase]) = None')
+            if nid in starts and defect != 'rec_noaddl':
+                # the start node of a recurrent sub-graph declares additional_data - in the reusable base class
+                gparams.append('additional_data: t.Any = None')
             L += ['class G_%s(%s):' % (nid, base), '    """generic base of %s"""' % nid, '    name = %r' % ('g_' + nid),
                   '    %s process(%s) -> t.Any:' % (adef, ', '.join(gparams))]
             if x.get('gdoc'):
                 L += ['        """generic work of %s"""' % nid]
             L += ['        return None', '']
-            L += ['%s = build_node(G_%s, node_name=%r, class_name=%r, %s)' % (
-                cls, nid, nid, 'Generic' + nid, ', '.join('%s=%s' % (m['kw'], ann(m)) for m in x['marks'])), '']
+            deps = ', '.join('%s=%s' % (m['kw'], ann(m)) for m in x['marks'])
+            basis = 'G_%s' % nid
+            if x.get('gtwice') and defect == 'none':
+                # a reusable node derived from a reusable node derived from the basic node
+                L += ['GI_%s = build_node(G_%s, class_name=%r, dependencies_default=dict(gconst=0), %s)' % (
+                    nid, nid, 'GenericInner' + nid, deps), '']
+                basis = 'GI_%s' % nid
+            L += ['%s = build_node(%s, node_name=%r, class_name=%r, dependencies_default=dict(gconst=1), %s)' % (
+                cls, basis, nid, 'Generic' + nid, deps), '']
             continue
         L += ['class %s(%s):' % (cls, base), '    """generated node %s"""' % nid, '    name = %r' % nid,
               '    verbose_name = %r' % ('Node ' + nid), '    tags = %s' % tags]
